@@ -92,6 +92,12 @@ type TextTag struct {
 
 func (t *TextTag) MarshalText() ([]byte, error) { return []byte("text:" + t.V), nil }
 
+// Unenc has no JSON encoding: publishing it fails to persist (and is reported
+// to the persistence error handler) without touching the log.
+type Unenc struct {
+	C chan int `json:"c"`
+}
+
 // Val describes the generated field values of one event.
 type Val struct {
 	Shape string  `json:"shape"` // plain ptr named namedptr namedvalptr envelope ptrmarsh ptrmarshptr holder
@@ -109,6 +115,10 @@ type Case struct {
 	// Publishers: each a list of events; one publisher = sequential run
 	Publishers [][]Val `json:"publishers"`
 	Procs      int     `json:"procs,omitempty"`
+	// Noise > 0 (concurrent runs with a persistence error handler): one more
+	// goroutine publishes Noise unencodable events meanwhile.  Their failures
+	// are reported; every encodable publish still appends exactly one record.
+	Noise int `json:"noise,omitempty"`
 }
 
 type obsNop struct{ calls *atomic.Int32 }
@@ -200,7 +210,8 @@ func Run(c *Case) *vkit.Outcome {
 		}
 		mu.Unlock()
 	}
-	var hookCalls, persistErrs, obsCalls atomic.Int32
+	var hookCalls, persistErrs, obsCalls, noiseReports atomic.Int32
+	noiseWanted := 0
 	var opts []eventbus.Option
 	storeLast := true
 	seenStore := false
@@ -224,6 +235,12 @@ func Run(c *Case) *vkit.Outcome {
 			opts = append(opts, eventbus.WithPanicHandler(func(any, reflect.Type, any) {}))
 		case "perr":
 			opts = append(opts, eventbus.WithPersistenceErrorHandler(func(ev any, _ reflect.Type, err error) {
+				if _, noise := ev.(Unenc); noise {
+					// expected: the noise publisher's events have no JSON encoding
+					noiseReports.Add(1)
+					time.Sleep(200 * time.Microsecond)
+					return
+				}
 				persistErrs.Add(1)
 				fail("persistence error handler called for %#v: %v", ev, err)
 			}))
@@ -361,10 +378,32 @@ func Run(c *Case) *vkit.Outcome {
 			base += len(vals)
 			total += len(vals)
 		}
+		hasPerr := false
+		for _, op := range c.Options {
+			hasPerr = hasPerr || op == "perr"
+		}
+		if c.Noise > 0 && hasPerr {
+			done.Add(1)
+			go func() {
+				defer done.Done()
+				start.Wait()
+				for i := 0; i < c.Noise; i++ {
+					eventbus.Publish(bus, Unenc{C: make(chan int)})
+				}
+			}()
+			noiseWanted = c.Noise
+		}
 		start.Done()
 		done.Wait()
 	}
 	bus.Wait()
+	if noiseWanted > 0 && int(noiseReports.Load()) != noiseWanted {
+		o.Failf("", "options %v: %d unencodable events were published, the persistence error handler was called %d times for them", c.Options, noiseWanted, noiseReports.Load())
+		return o
+	}
+	if noiseWanted > 0 {
+		o.Class("unencodable_events_published_concurrently")
+	}
 
 	for _, f := range fails {
 		sig := ""
